@@ -27,13 +27,9 @@ Definition with_src (src : option kind) (t : terms) (f : option kind -> terms ->
 Definition out_model (r : result model) : cout :=
   match r with Ok m => OModelOut (kd m) (tm m) | Err e => OErr e end.
 
-(* set_mapping / set_reverse_mapping: the mapping is replaced, nothing else is touched *)
+(* set_mapping / set_reverse_mapping (Model/Matrix.v set_mapping) when the case renumbers the model *)
 Definition with_mp (m : model) (mpx : option (list (label * nat))) : model :=
-  match mpx with
-  | None => m
-  | Some l => {| kd := kd m; tm := tm m; deg_c := deg_c m; vars_c := vars_c m; mp := l; next_label := next_label m;
-                anc := anc m; cons := cons m; nm := nm m |}
-  end.
+  match mpx with None => m | Some l => set_mapping m l end.
 
 Definition list_max (l : list nat) : nat := fold_left Nat.max l 0%nat.
 
